@@ -75,6 +75,7 @@ inductive ER : K → Sub → Expr → Expr → Prop
   | fn {σ p bL bR} : ER .expr (σ.erase (patVars p)) bL bR → ER .expr σ (.fn p bL) (.fn p bR)
   | neg {σ a b} : ER .expr σ a b → ER .expr σ (.neg a) (.neg b)
   | dot {σ a b} (n : String) : ER .expr σ a b → ER .expr σ (.dot a n) (.dot b n)
+  | un {σ a b} (op : UnOp) : ER .expr σ a b → ER .expr σ (.un op a) (.un op b)
   | bin {σ a b c d} (op) : ER .expr σ a b → ER .expr σ c d → ER .expr σ (.bin op a c) (.bin op b d)
   | and_ {σ a b c d} : ER .expr σ a b → ER .expr σ c d → ER .expr σ (.and_ a c) (.and_ b d)
   | or_ {σ a b c d} : ER .expr σ a b → ER .expr σ c d → ER .expr σ (.or_ a c) (.or_ b d)
@@ -225,8 +226,37 @@ theorem mkNum_ok {n : Int} {r : Val} (h : mkNum n = .ok r) : ∃ u, r = Val.data
 
 theorem ValR.negV {a b : Val} (h : ValR a b) : ResR ValR (negV a) (negV b) := by
   cases h with
-  | data v => cases v <;> simp [Impl.negV, mkNum_rel]
+  | data v =>
+    cases hr : Impl.negV (.data v) with
+    | ok r =>
+      simp only [ResR.ok_ok]
+      have : ∃ u, r = Val.data u := by
+        unfold Impl.negV at hr
+        split at hr
+        · exact mkNum_ok hr
+        · simp at hr; exact ⟨_, hr.symm⟩
+        · simp at hr; exact ⟨_, hr.symm⟩
+        · split at hr <;> simp at hr; exact ⟨_, hr.symm⟩
+        · simp at hr; exact ⟨_, hr.symm⟩
+        · simp at hr
+      obtain ⟨u, rfl⟩ := this
+      exact ValR.data u
+    | err => simp
+    | oof => simp
+    | unsup => simp
   | clo => simp [Impl.negV]
+
+theorem ValR.unV (op : UnOp) {a b : Val} (h : ValR a b) : ResR ValR (unV op a) (unV op b) := by
+  cases op with
+  | pos => simpa [Impl.unV] using h
+  | not => simp [Impl.unV, h.isTrue]; exact ValR.data _
+  | pset =>
+    cases h with
+    | data v =>
+      cases v with
+      | set xs => simp only [Impl.unV]; split <;> simp; exact ValR.data _
+      | _ => simp [Impl.unV]
+    | clo => simp [Impl.unV]
 
 /-! ## Pattern.Bind -/
 
@@ -647,6 +677,10 @@ theorem simStep (nL : Nat) (IH : ∀ m, m < nL → SimAt m) : SimAt nL := by
     intro nR envL envR henv
     simp only [SimGoal, evalE]
     exact ResR.bind (ih nR envL envR henv) (fun _ _ h => h.dotV n)
+  | un op _ ih =>
+    intro nR envL envR henv
+    simp only [SimGoal, evalE]
+    exact ResR.bind (ih nR envL envR henv) (fun _ _ h => h.unV op)
   | bin op _ _ iha ihc =>
     intro nR envL envR henv
     simp only [SimGoal, evalE]
